@@ -249,9 +249,25 @@ class Worker:
             stdin=subprocess.PIPE, stdout=subprocess.PIPE, env=self.env, text=True,
             cwd='/var/tmp',
         )
-        hello = self.p.stdout.readline()
-        if not hello.startswith('READY'):
+        import queue
+        import threading
+        self.q = queue.Queue()
+
+        def pump(stream, q):
+            for line in stream:
+                q.put(line)
+            q.put('')
+        threading.Thread(target=pump, args=(self.p.stdout, self.q), daemon=True).start()
+        hello = self._readline(600)
+        if not hello or not hello.startswith('READY'):
             raise RuntimeError('worker failed to start: %r' % hello)
+
+    def _readline(self, timeout):
+        import queue
+        try:
+            return self.q.get(timeout=timeout)
+        except queue.Empty:
+            return None
 
     def _chunk(self, chunk):
         """Evaluate a chunk; a crash of the interpreter (e.g. memory corruption in a
@@ -259,12 +275,14 @@ class Worker:
         try:
             self.p.stdin.write(json.dumps(chunk) + '\n')
             self.p.stdin.flush()
-            line = self.p.stdout.readline()
+            # watchdog: a hanging implementation (e.g. a kernel that loops forever) must not hang the check
+            line = self._readline(120 + int(os.environ.get('VERIF_CASE_TIMEOUT', '2')) * len(chunk))
         except (BrokenPipeError, OSError):
             line = ''
         if line:
             return json.loads(line)
-        rc = self.p.poll()
+        hung = line is None
+        rc = 'timeout' if hung else self.p.poll()
         try:
             self.p.kill()
         except Exception:
@@ -274,7 +292,7 @@ class Worker:
             raise RuntimeError('worker %s keeps dying' % self.name)
         self._start()
         if len(chunk) == 1:
-            return [{'err': 'Crash', 'msg': 'interpreter died (exit %s) on this case' % rc}]
+            return [{'err': 'Hang' if hung else 'Crash', 'msg': 'interpreter %s on this case' % ('did not answer in time' if hung else 'died (exit %s)' % rc)}]
         h = len(chunk) // 2
         return self._chunk(chunk[:h]) + self._chunk(chunk[h:])
 
